@@ -10,7 +10,9 @@ from the LIVE objects of the current /repo working tree (no source-text matching
   representations on the running interpreter (fitted on fresh values and
   verified on further lengths; the generator fails if the law is not linear).
 """
+import inspect
 import itertools
+import re
 import sys
 
 import gal
@@ -92,6 +94,153 @@ def registry_rows():
     return rows
 
 
+# --------------------------------------------------------------------------
+# smart-type COMBINATORS over the collection types (host functions may declare a
+# parameter as "a collection or a scalar", "a sequence that is also ...", ...)
+# --------------------------------------------------------------------------
+class CombinatorError(Exception):
+    pass
+
+
+def combinator_classes():
+    """Discovered from yaqltypes itself: (aggregations holding several smart types,
+    wrappers holding one).  A new combinator class is picked up by its shape."""
+    from yaql.language import yaqltypes as yt
+    multi, single = [], []
+    for name, cls in sorted(vars(yt).items()):
+        if not inspect.isclass(cls) or cls.__module__ != yt.__name__:
+            continue
+        if not issubclass(cls, yt.SmartType) or cls in (yt.SmartType, yt.SmartTypeAggregation):
+            continue
+        if issubclass(cls, (yt.HiddenParameterType, yt.LazyParameterType)):
+            continue
+        slots = {sl for k in cls.__mro__ for sl in (getattr(k, "__slots__", ()) or ())}
+        if issubclass(cls, yt.SmartTypeAggregation) or any(re.search(r"(^|_)types($|_)", sl) for sl in slots):
+            multi.append(cls)
+        elif any(sl != "python_type" and re.search(r"(^|_)type($|_)", sl) for sl in slots):
+            single.append(cls)
+    return multi, single
+
+
+def combinator_instances():
+    """[(label, smart type)]: every discovered combinator over the limiting collection types
+    (Iterable / Iterator) and scalars, nullable variants, nested.  Built so that a generator
+    object, wherever the combinator accepts one, is matched by a limiting member (the limiting
+    member comes first where order could matter).  Fails closed on a combinator that cannot be
+    instantiated or exercised."""
+    from yaql.language import yaqltypes as yt
+    multi, single = combinator_classes()
+    if not multi:
+        raise CombinatorError("no aggregated smart type found in yaqltypes")
+    out = []
+
+    def add(label, mk):
+        try:
+            out.append((label, mk()))
+            return True
+        except Exception:
+            return False
+
+    for W in single:
+        try:
+            W(yt.String())
+        except Exception as e:
+            raise CombinatorError("cannot instantiate %s(String()): %r" % (W.__name__, e))
+    for A in multi:
+        n = A.__name__
+        before = len(out)
+        add("%s(Iterable(), Number())" % n, lambda: A(yt.Iterable(), yt.Number()))
+        add("%s(Number(), Iterable())" % n, lambda: A(yt.Number(), yt.Iterable()))
+        add("%s(String(), Iterable())" % n, lambda: A(yt.String(), yt.Iterable()))
+        add("%s(Iterable())" % n, lambda: A(yt.Iterable()))
+        add("%s(Iterable(), Iterator())" % n, lambda: A(yt.Iterable(), yt.Iterator()))
+        add("%s(Iterator(), Iterable(), nullable=True)" % n, lambda: A(yt.Iterator(), yt.Iterable(), nullable=True))
+        add("%s(Iterable(nullable=True), Integer(), nullable=True)" % n,
+            lambda: A(yt.Iterable(nullable=True), yt.Integer(), nullable=True))
+        add("%s(%s(Iterable(), Number()), String())" % (n, n), lambda: A(A(yt.Iterable(), yt.Number()), yt.String()))
+        for B in multi:
+            b = B.__name__
+            add("%s(%s(Iterable(), Iterator()), Number())" % (n, b), lambda: A(B(yt.Iterable(), yt.Iterator()), yt.Number()))
+            add("%s(Number(), %s(Iterable(), Iterator()))" % (n, b), lambda: A(yt.Number(), B(yt.Iterable(), yt.Iterator())))
+            add("%s(%s(Iterable()), %s(Iterator(), nullable=True))" % (n, b, b),
+                lambda: A(B(yt.Iterable()), B(yt.Iterator(), nullable=True)))
+        for W in single:
+            w = W.__name__
+            add("%s(Iterable(), %s(String()))" % (n, w), lambda: A(yt.Iterable(), W(yt.String())))
+            add("%s(Iterable(), %s(Number()))" % (n, w), lambda: A(yt.Iterable(), W(yt.Number())))
+        if len(out) - before < 3:
+            raise CombinatorError("combinator %s could not be instantiated over the collection types" % n)
+    return out
+
+
+def probe_combinator(label, vt):
+    """Behavioural facts of one combinator type (decided by running check / convert)."""
+    import yaql
+    from yaql.language import exceptions, utils
+    ctx = yaql.create_context()
+    eng = yaql.YaqlFactory().create(options={"yaql.limitIterators": PROBE_LIMIT})
+    qeng = yaql.YaqlFactory().create(options={"yaql.memoryQuota": 200})
+
+    def gen():
+        yield 1
+
+    def chk(v):
+        try:
+            return bool(vt.check(v, ctx, eng))
+        except Exception:
+            return False
+
+    row = {"label": label, "acc_iter": chk(gen()), "limiting": False, "pulls": None,
+           "acc_sized": chk((0,) * (PROBE_LIMIT + 1)), "sized_refused": False, "sized_ok": False, "quota_ok": False}
+    if row["acc_iter"]:
+        pulls = [0]
+
+        def src():
+            for i in itertools.count():
+                pulls[0] += 1
+                if pulls[0] > 200:
+                    return
+                yield i
+        try:
+            it = iter(vt.convert(src(), utils.NO_VALUE, ctx, None, eng))
+            for _ in range(PROBE_LIMIT + 3):
+                next(it)
+        except exceptions.CollectionTooLargeException:
+            row["limiting"] = pulls[0] <= PROBE_LIMIT + 1
+        except Exception:
+            pass
+        row["pulls"] = pulls[0]
+    if row["acc_sized"]:
+        try:
+            vt.convert((0,) * (PROBE_LIMIT + 1), utils.NO_VALUE, ctx, None, eng)
+        except exceptions.CollectionTooLargeException:
+            row["sized_refused"] = True
+        except Exception:
+            pass
+        try:
+            keep = (0,) * PROBE_LIMIT
+            row["sized_ok"] = vt.convert(keep, utils.NO_VALUE, ctx, None, eng) is keep
+        except Exception:
+            pass
+        try:
+            vt.convert(tuple(range(100)), utils.NO_VALUE, ctx, None, qeng)
+        except exceptions.MemoryQuotaExceededException:
+            row["quota_ok"] = True
+        except Exception:
+            pass
+    return row
+
+
+def combinator_rows():
+    rows = [probe_combinator(label, vt) for label, vt in combinator_instances()]
+    multi, single = combinator_classes()
+    for cls in multi:
+        mine = [r for r in rows if r["label"].startswith(cls.__name__ + "(")]
+        if sum(1 for r in mine if r["acc_iter"] or r["acc_sized"]) < 2:
+            raise CombinatorError("combinator %s accepts no collection in any instance: cannot be exercised" % cls.__name__)
+    return rows
+
+
 def fit(mk, ns=(2, 3, 5, 9, 17, 40, 100)):
     """base, item such that getsizeof(mk(n)) = base + item*n for all probed n >= 1."""
     s = {n: sys.getsizeof(mk(n)) for n in ns}
@@ -159,6 +308,21 @@ def generate():
             r["fn"].replace("*)", "* )").replace("(*", "( *"), r["payload"], r["key"].replace("*", "VAR")))
     out.append(";\n".join(body))
     out.append("].")
+    out.append("")
+    crows = combinator_rows()
+    multi, single = combinator_classes()
+    out.append("(* smart-type combinators found in yaqltypes: aggregations %s; wrappers %s *)"
+               % (", ".join(c.__name__ for c in multi), ", ".join(c.__name__ for c in single) or "-"))
+    out.append("Definition combinators : list crow := [")
+    out.append(";\n".join("  {| c_label := %s; c_acc_iter := %s; c_limiting := %s; c_acc_sized := %s; c_sized_refused := %s; "
+                          "c_sized_ok := %s; c_quota_ok := %s |}  (* %s *)" % (
+                              gal.s(r["label"]), gal.boolean(r["acc_iter"]), gal.boolean(r["limiting"]),
+                              gal.boolean(r["acc_sized"]), gal.boolean(r["sized_refused"]), gal.boolean(r["sized_ok"]),
+                              gal.boolean(r["quota_ok"]), r["label"]) for r in crows))
+    out.append("].")
+    out.append("Example combinators_exercised : (%d <=? Z.of_nat (length (filter c_acc_iter combinators))) = true."
+               % (2 * len(multi)))
+    out.append("Proof. vm_compute. reflexivity. Qed.")
     out.append("")
     out.append("(* self-checks of the generator's output *)")
     out.append("Example params_nonempty : (200 <=? Z.of_nat (length params)) = true. Proof. reflexivity. Qed.")
